@@ -247,14 +247,14 @@ func newProto(c *props.Ctx, sp *ssa.Package, fns []*ssa.Function, ci *flow.CallI
 		}
 		return nil
 	}
-	pr.fData, pr.fVersion, pr.fDepV, pr.fFlag = field("Data"), field("version"), field("depVersions"), field("inputChangedSinceLastProcess")
-	pr.mProcess, pr.mSetInput, pr.mOutdated, pr.mValue, pr.mState = method("process"), method("SetInput"), method("Outdated"), method("Value"), method("State")
-	for n, f := range map[string]*types.Var{"Data": pr.fData, "version": pr.fVersion, "depVersions": pr.fDepV, "inputChangedSinceLastProcess": pr.fFlag} {
-		if f == nil {
-			return fail("field %s.%s not found", key, n)
-		}
+	// Exported API names are the anchors; everything unexported is resolved by role from them.
+	pr.fData = field("Data")
+	if pr.fData == nil {
+		return fail("field %s.Data not found", key)
 	}
-	for n, m := range map[string]*types.Func{"process": pr.mProcess, "SetInput": pr.mSetInput, "Outdated": pr.mOutdated, "Value": pr.mValue, "State": pr.mState} {
+	pr.mSetInput, pr.mOutdated, pr.mValue, pr.mState = method("SetInput"), method("Outdated"), method("Value"), method("State")
+	mVersion := method("Version")
+	for n, m := range map[string]*types.Func{"SetInput": pr.mSetInput, "Outdated": pr.mOutdated, "Value": pr.mValue, "State": pr.mState, "Version": mVersion} {
 		if m == nil {
 			return fail("method %s.%s not found", key, n)
 		}
@@ -262,24 +262,158 @@ func newProto(c *props.Ctx, sp *ssa.Package, fns []*ssa.Function, ci *flow.CallI
 			return fail("method %s.%s has no body", key, n)
 		}
 	}
-	// the cached value: the field whose type is the result type of Value()
+	ownField := func(fv *types.Var) *types.Var {
+		for i := 0; fv != nil && i < st.NumFields(); i++ {
+			if sameField(st.Field(i), fv) {
+				return st.Field(i)
+			}
+		}
+		return nil
+	}
+	unique := func(role string, cands map[*types.Var]bool) *types.Var {
+		if len(cands) != 1 {
+			var ns []string
+			for f := range cands {
+				ns = append(ns, f.Name())
+			}
+			sort.Strings(ns)
+			fail("%s: cannot resolve the %s uniquely by role (candidates: %v)", key, role, ns)
+			return nil
+		}
+		for f := range cands {
+			return f
+		}
+		return nil
+	}
+	// version counter: the integer field a method of the type increments (f = f + 1); if none is
+	// incremented (a defect NODE-1 reports), the field the exported Version() returns
+	{
+		c := map[*types.Var]bool{}
+		for i := 0; i < named.NumMethods(); i++ {
+			if b := ci.Body[named.Method(i).Origin()]; b != nil {
+				ssau.AllInstrs(b, func(in ssa.Instruction) {
+					if st, isSt := in.(*ssa.Store); isSt && !flow.IsFreshBase(st.Addr) {
+						if fv, _ := flow.FieldBase(st.Addr); ownField(fv) != nil && isIncrementOf(st.Val, fv) {
+							c[ownField(fv)] = true
+						}
+					}
+				})
+			}
+		}
+		if len(c) != 1 {
+			c = map[*types.Var]bool{}
+			for _, s := range flow.ReturnSites(ci.Body[mVersion], 0) {
+				if fv, _ := flow.LoadedField(s.Val); ownField(fv) != nil {
+					c[ownField(fv)] = true
+				}
+			}
+		}
+		if pr.fVersion = unique("version counter (the field that is incremented / that Version() returns)", c); pr.fVersion == nil {
+			return nil
+		}
+	}
+	loadedIn := func(fn *ssa.Function, ok func(*types.Var) bool) map[*types.Var]bool {
+		out := map[*types.Var]bool{}
+		ssau.AllInstrs(fn, func(in ssa.Instruction) {
+			if v, isV := in.(ssa.Value); isV {
+				if fv, _ := flow.LoadedField(v); ownField(fv) != nil && ok(ownField(fv)) {
+					out[ownField(fv)] = true
+				}
+			}
+		})
+		return out
+	}
+	// remembered dependency versions: the []int field Outdated() reads
+	{
+		c := loadedIn(ci.Body[pr.mOutdated], func(f *types.Var) bool {
+			sl, isSl := f.Type().Underlying().(*types.Slice)
+			if !isSl {
+				return false
+			}
+			b, isB := sl.Elem().Underlying().(*types.Basic)
+			return isB && b.Kind() == types.Int
+		})
+		if pr.fDepV = unique("remembered dependency versions (the []int field Outdated() reads)", c); pr.fDepV == nil {
+			return nil
+		}
+	}
+	// re-wire flag: the bool field the methods of the type store constants into (SetInput sets it, the
+	// evaluating method clears it); if no method stores one, the bool field Outdated() reads
+	{
+		isBool := func(f *types.Var) bool {
+			b, isB := f.Type().Underlying().(*types.Basic)
+			return isB && b.Kind() == types.Bool
+		}
+		c := map[*types.Var]bool{}
+		for i := 0; i < named.NumMethods(); i++ {
+			if b := ci.Body[named.Method(i).Origin()]; b != nil {
+				ssau.AllInstrs(b, func(in ssa.Instruction) {
+					if s, isS := in.(*ssa.Store); isS && !flow.IsFreshBase(s.Addr) {
+						if fv, _ := flow.FieldBase(s.Addr); ownField(fv) != nil && isBool(ownField(fv)) {
+							if _, isC := s.Val.(*ssa.Const); isC {
+								c[ownField(fv)] = true
+							}
+						}
+					}
+				})
+			}
+		}
+		if len(c) != 1 {
+			c = loadedIn(ci.Body[pr.mOutdated], isBool)
+		}
+		if pr.fFlag = unique("re-wire flag (the bool field SetInput sets and Outdated() reads)", c); pr.fFlag == nil {
+			return nil
+		}
+	}
+	// the evaluating method: the method of the type that invokes Process() on Data
+	{
+		var cands []*types.Func
+		for i := 0; i < named.NumMethods(); i++ {
+			m := named.Method(i).Origin()
+			b := ci.Body[m]
+			if b == nil {
+				continue
+			}
+			has := false
+			ssau.AllInstrs(b, func(in ssa.Instruction) {
+				if pr.isProcessInvoke(in) {
+					has = true
+				}
+			})
+			if has {
+				cands = append(cands, m)
+			}
+		}
+		if len(cands) != 1 {
+			return fail("%s: cannot resolve the evaluating method (the method that calls Data.Process()) uniquely: %d candidates", key, len(cands))
+		}
+		pr.mProcess = cands[0]
+	}
+	// the cached value, by role: the field every return of the exported Value() loads
 	rt := pr.mValue.Type().(*types.Signature).Results()
 	if rt.Len() != 1 {
 		return fail("%s.Value does not return exactly one result", key)
 	}
 	var cands []*types.Var
-	for i := 0; i < st.NumFields(); i++ {
-		if types.Identical(st.Field(i).Type(), rt.At(0).Type()) && st.Field(i) != pr.fData {
-			cands = append(cands, st.Field(i))
+	{
+		c := map[*types.Var]bool{}
+		for _, s := range flow.ReturnSites(ci.Body[pr.mValue], 0) {
+			if fv, _ := flow.LoadedField(s.Val); ownField(fv) != nil && !sameField(fv, pr.fData) {
+				c[ownField(fv)] = true
+			}
+		}
+		// a Value() that copies the cache into a local first (`v := sn.value; …; return v`): the field it loads at all
+		if len(c) == 0 {
+			c = loadedIn(ci.Body[pr.mValue], func(f *types.Var) bool {
+				return !sameField(f, pr.fData) && !sameField(f, pr.fVersion) && !sameField(f, pr.fDepV) && !sameField(f, pr.fFlag)
+			})
+		}
+		for f := range c {
+			cands = append(cands, f)
 		}
 	}
 	if len(cands) != 1 {
-		if f := field("value"); f != nil {
-			cands = []*types.Var{f}
-		}
-	}
-	if len(cands) != 1 {
-		return fail("%s: cannot identify the cached-value field (the field of Value()'s result type)", key)
+		return fail("%s: cannot resolve the cached-value field (the field Value() returns) uniquely by role (%d candidates)", key, len(cands))
 	}
 	pr.fValue = cands[0]
 	var ok1, ok2 bool
@@ -391,7 +525,7 @@ func (pr *proto) node1() {
 		"depVersions": {construct: pr.key + ".depVersions", allowed: pr.regProcess, what: "process (snapshot)"},
 		"flag=true":   {construct: pr.key + ".inputChangedSinceLastProcess=true", allowed: pr.regSetInput, what: "SetInput"},
 		"flag=false":  {construct: pr.key + ".inputChangedSinceLastProcess=false", allowed: pr.regProcess, what: "process"},
-		"value":       {construct: pr.key + "." + pr.fValue.Name(), allowed: pr.regProcess, what: "process"},
+		"value":       {construct: pr.key + ".value", allowed: pr.regProcess, what: "process"},
 	}
 	for _, w := range pr.writes {
 		owner := flow.Owner(w.fn)
